@@ -285,25 +285,43 @@ func (ex *Exec) zerolog(st *State, fr *Frame, instr ssa.Instruction, name string
 // ---------- atcall clauses ----------
 
 func (ex *Exec) atCall(st *State, fr *Frame, instr ssa.Instruction, name string, args []Val) {
-	if fr.spec == nil || len(fr.spec.AtCall) == 0 {
-		return
-	}
 	alt := ex.shortCallee(instr)
-	for _, c := range fr.spec.AtCall {
-		if !strings.Contains(name, c.Callee) && !(alt != "" && strings.Contains(alt, c.Callee)) {
-			continue
+	// the frame's own clauses, then (for a closure executed in place: deferred / called closures)
+	// those of the lexically enclosing functions - "at a call to f made by this function" includes
+	// the calls its in-place closures make, whichever of the two forms the source uses
+	type owner struct {
+		key string
+		sp  *FuncSpec
+	}
+	var owners []owner
+	if fr.spec != nil {
+		owners = append(owners, owner{fr.key, fr.spec})
+	}
+	if fr.fn != nil && !fr.top && (fr.spec == nil || fr.spec.Inline) {
+		for p := fr.fn.Parent(); p != nil; p = p.Parent() {
+			pk := ex.prog.Keys[p]
+			if psp := ex.specs.Funcs[pk]; psp != nil {
+				owners = append(owners, owner{pk, psp})
+			}
 		}
-		if c.Ord >= 0 && ex.siteOrdinal(fr.fn, instr, c.Callee) != c.Ord {
-			continue
+	}
+	for _, o := range owners {
+		for _, c := range o.sp.AtCall {
+			if !strings.Contains(name, c.Callee) && !(alt != "" && strings.Contains(alt, c.Callee)) {
+				continue
+			}
+			if c.Ord >= 0 && ex.siteOrdinal(fr.fn, instr, c.Callee) != c.Ord {
+				continue
+			}
+			extra := map[string]Val{}
+			for i, a := range args {
+				extra[fmt.Sprintf("arg%d", i)] = a
+			}
+			g := ex.evalClause(st, fr, c, extra)
+			ex.covers[o.key+"/atcall/"+c.name()+"/"+c.Callee] = true
+			ob := ex.oblige(st, "atcall", fmt.Sprintf("%s/%s", o.key, c.name()), c.Labels, g, c, ex.posOf(instr))
+			ex.attachProbes(st, fr, ob)
 		}
-		extra := map[string]Val{}
-		for i, a := range args {
-			extra[fmt.Sprintf("arg%d", i)] = a
-		}
-		g := ex.evalClause(st, fr, c, extra)
-		ex.covers[fr.key+"/atcall/"+c.name()+"/"+c.Callee] = true
-		ob := ex.oblige(st, "atcall", fmt.Sprintf("%s/%s", fr.key, c.name()), c.Labels, g, c, ex.posOf(instr))
-		ex.attachProbes(st, fr, ob)
 	}
 }
 
